@@ -9,6 +9,8 @@
  *   C06_FAULT = <class>:<k>:<errno>      the k-th (1-based) call of <class> fails with <errno>, without being made
  *       class  mkdir | symlink | mknod | open (only calls with O_CREAT: the unpacker's) | utimensat | fchownat |
  *              fchmodat | lsetxattr | chdir
+ *              — and the calls on the descriptor of a file being filled (lib/sqfs/src/io/ostream.c, unix.c, file.c) —
+ *              write | pwrite | ftruncate | fsync | close   (no path argument: logged as `-`)
  *       errno  a number
  *   C06_FAULT_LOG = path                 one line `fired <class> <k> <errno> <path argument in hex>` when the fault fires;
  *                                        at exit one line `count <class> <n>` per class
@@ -29,9 +31,10 @@
 #include <time.h>
 #include <unistd.h>
 
-enum { K_MKDIR, K_SYMLINK, K_MKNOD, K_OPEN, K_UTIMENSAT, K_FCHOWNAT, K_FCHMODAT, K_LSETXATTR, K_CHDIR, K_N };
+enum { K_MKDIR, K_SYMLINK, K_MKNOD, K_OPEN, K_UTIMENSAT, K_FCHOWNAT, K_FCHMODAT, K_LSETXATTR, K_CHDIR,
+       K_WRITE, K_PWRITE, K_FTRUNCATE, K_FSYNC, K_CLOSE, K_N };
 static const char *const kname[K_N] = { "mkdir", "symlink", "mknod", "open", "utimensat", "fchownat", "fchmodat",
-					"lsetxattr", "chdir" };
+					"lsetxattr", "chdir", "write", "pwrite", "ftruncate", "fsync", "close" };
 static long cnt[K_N];
 static int cfg_done, cfg_class = -1, cfg_errno;
 static long cfg_k;
@@ -206,4 +209,69 @@ int __wrap_chdir(const char *path)
 	if (hit(K_CHDIR, path))
 		return -1;
 	return __real_chdir(path);
+}
+
+/* ---- calls on the descriptor of a file being filled ---- */
+
+ssize_t __real_write(int fd, const void *buf, size_t n);
+ssize_t __wrap_write(int fd, const void *buf, size_t n)
+{
+	if (hit(K_WRITE, NULL))
+		return -1;
+	return __real_write(fd, buf, n);
+}
+
+ssize_t __real_pwrite(int fd, const void *buf, size_t n, off_t off);
+ssize_t __wrap_pwrite(int fd, const void *buf, size_t n, off_t off)
+{
+	if (hit(K_PWRITE, NULL))
+		return -1;
+	return __real_pwrite(fd, buf, n, off);
+}
+
+ssize_t __real_pwrite64(int fd, const void *buf, size_t n, off_t off);
+ssize_t __wrap_pwrite64(int fd, const void *buf, size_t n, off_t off)
+{
+	if (hit(K_PWRITE, NULL))
+		return -1;
+	return __real_pwrite64(fd, buf, n, off);
+}
+
+int __real_ftruncate(int fd, off_t len);
+int __wrap_ftruncate(int fd, off_t len)
+{
+	if (hit(K_FTRUNCATE, NULL))
+		return -1;
+	return __real_ftruncate(fd, len);
+}
+
+int __real_ftruncate64(int fd, off_t len);
+int __wrap_ftruncate64(int fd, off_t len)
+{
+	if (hit(K_FTRUNCATE, NULL))
+		return -1;
+	return __real_ftruncate64(fd, len);
+}
+
+int __real_fsync(int fd);
+int __wrap_fsync(int fd)
+{
+	if (hit(K_FSYNC, NULL))
+		return -1;
+	return __real_fsync(fd);
+}
+
+/* a failing close() still releases the descriptor (Linux semantics), except for EINTR which the caller retries */
+int __real_close(int fd);
+int __wrap_close(int fd)
+{
+	if (hit(K_CLOSE, NULL)) {
+		int e = errno;
+
+		if (e != EINTR)
+			__real_close(fd);
+		errno = e;
+		return -1;
+	}
+	return __real_close(fd);
 }
